@@ -46,12 +46,13 @@ pub struct SpecGen<'a> {
     pending_allof: Vec<String>,
     used_keyword_ids: Vec<String>,
     prev_ids: Vec<String>,
+    nullable_aliases: Vec<String>,
 }
 
 fn r(name: &str) -> Value { json!({"$ref": format!("#/components/schemas/{name}")}) }
 
 impl<'a> SpecGen<'a> {
-    pub fn new(rng: &'a mut Rng, opts: GenOpts) -> Self { SpecGen { rng, opts, names: vec![], kinds: vec![], features: vec![], pending_allof: vec![], used_keyword_ids: vec![], prev_ids: vec![] } }
+    pub fn new(rng: &'a mut Rng, opts: GenOpts) -> Self { SpecGen { rng, opts, names: vec![], kinds: vec![], features: vec![], pending_allof: vec![], used_keyword_ids: vec![], prev_ids: vec![], nullable_aliases: vec![] } }
 
     fn feat(&mut self, f: &str) { if !self.features.iter().any(|x| x == f) { self.features.push(f.to_string()); } }
 
@@ -96,6 +97,12 @@ impl<'a> SpecGen<'a> {
         Some(r(&n))
     }
 
+    fn object_ref_or_solid(&mut self) -> Option<Value> { self.solid_ref() }
+
+    fn is_object_ref(&self, x: &Value) -> bool {
+        x["$ref"].as_str().and_then(|r| r.rsplit('/').next()).map(|n| self.names.iter().zip(self.kinds.iter()).any(|(m, k)| m == n && matches!(*k, "object" | "allof"))).unwrap_or(false)
+    }
+
     fn solid_ref(&mut self) -> Option<Value> {
         let t = self.solid_targets();
         if t.is_empty() { return None; }
@@ -112,16 +119,21 @@ impl<'a> SpecGen<'a> {
             7 => { self.feat("inline_enum"); json!({"type": "string", "enum": ["a", "b"]}) }
             8 | 9 => {
                 self.feat("array");
-                let items = if self.rng.chance(1, 2) { self.solid_ref().unwrap_or_else(|| self.primitive()) } else { self.schema(depth + 1) };
+                let mut items = if self.rng.chance(1, 2) { self.solid_ref().unwrap_or_else(|| self.primitive()) } else { self.schema(depth + 1) };
+                // a list of a nullable alias component (the alias must stay what the list holds)
+                if (self.names.len() + depth) % 3 == 0 { if let Some(a) = self.nullable_aliases.first().cloned() { items = r(&a); self.feat("array_of_nullable_alias"); } }
                 json!({"type": "array", "items": items})
             }
             10 => { self.feat("inline_object"); self.object(depth + 1, false) }
             11 => {
                 self.feat("inline_map");
-                let v = if self.rng.chance(1, 3) { json!(true) } else { self.schema(depth + 1) };
+                let mut v = if self.rng.chance(1, 3) { json!(true) } else { self.schema(depth + 1) };
+                if (self.names.len() + depth) % 3 == 1 { if let Some(a) = self.nullable_aliases.last().cloned() { v = r(&a); self.feat("map_of_nullable_alias"); } }
                 json!({"type": "object", "additionalProperties": v})
             }
-            12 => { self.feat("allof1"); let t = if self.rng.chance(1, 3) { self.any_ref() } else { self.solid_ref() }; match t { Some(x) => json!({"allOf": [x]}), None => json!({"type": "string"}) } }
+            12 => { self.feat("allof1"); let t = if self.rng.chance(1, 3) { self.any_ref() } else { self.object_ref_or_solid() }; match t {
+                Some(x) => if (self.names.len() + depth) % 3 == 1 && self.is_object_ref(&x) { self.feat("allof_ref_plus_inline_properties"); json!({"allOf": [x, {"type": "object", "properties": {"zz_extra_note": {"type": "string"}}, "required": ["zz_extra_note"]}]}) } else { json!({"allOf": [x]}) },
+                None => json!({"type": "string"}) } }
             13 => { self.feat("oneof"); json!({"oneOf": [{"type": "string"}, {"type": "integer"}]}) }
             14 => { self.feat("freeform"); json!({"type": "object"}) }
             _ => { self.feat("notype"); json!({}) }
@@ -159,8 +171,11 @@ impl<'a> SpecGen<'a> {
             if self.rng.chance(1, 2) { required.push(json!(p.clone())); }
             props.insert(p, s);
         }
+        let n_props = props.len();
         let mut o = json!({"type": "object", "properties": props});
         if !required.is_empty() || self.rng.chance(1, 4) { o["required"] = Value::Array(required); }
+        // declared properties AND typed additional properties: still a struct of the declared members
+        if n_props >= 2 && (n_props + self.names.len() + depth) % 4 == 0 { o["additionalProperties"] = json!({"type": "string"}); self.feat("object_with_properties_and_additional"); }
         o
     }
 
@@ -191,7 +206,7 @@ impl<'a> SpecGen<'a> {
             }
             13 | 14 => { self.feat("primitive_component"); (self.primitive(), "prim") }
             15 => match { let earlier: Vec<String> = self.names.iter().zip(self.kinds.iter()).filter(|(_, k)| **k == "alias").map(|(n, _)| n.clone()).collect(); if !earlier.is_empty() && self.rng.chance(1, 2) { let n: String = self.rng.pick(&earlier[..]).clone(); self.feat("alias_of_alias"); Some(r(&n)) } else if self.rng.chance(1, 3) { let enums: Vec<String> = self.names.iter().zip(self.kinds.iter()).filter(|(_, k)| **k == "enum").map(|(n, _)| n.clone()).collect(); if enums.is_empty() { self.solid_ref() } else { let n: String = self.rng.pick(&enums[..]).clone(); self.feat("alias_of_enum"); Some(r(&n)) } } else { self.solid_ref() } } {
-                Some(t) => { self.feat("alias_component"); let mut a = json!({"allOf": [t]}); if self.rng.chance(1, 2) { a["nullable"] = json!(true); self.feat("nullable_alias"); } (a, "alias") }
+                Some(t) => { self.feat("alias_component"); let mut a = json!({"allOf": [t]}); if self.rng.chance(1, 2) { a["nullable"] = json!(true); self.feat("nullable_alias"); self.nullable_aliases.push(name.to_string()); } (a, "alias") }
                 None => (self.object(0, false), "object"),
             },
             16 | 17 => {
@@ -398,6 +413,8 @@ impl<'a> SpecGen<'a> {
             ("/orders/{order_id}/items", &["order_id"]), ("/search", &[]), ("/things/{thingId}/sub/{subId}/leaf", &["thingId", "subId"]), ("/status", &[]),
             // a placeholder that repeats its collection's name, next to the collection itself; templates ending in a slash; the root
             ("/user", &[]), ("/user/{user}", &["user"]), ("/gadgets/", &[]), ("/gadgets/{gadget_id}/parts/", &["gadget_id"]), ("/", &[]),
+            // placeholder names with the other characters of the name alphabet, a keyword, a leading digit
+            ("/orgs/{org-id}/members", &["org-id"]), ("/files/{file.id}", &["file.id"]), ("/kinds/{type}", &["type"]), ("/codes/{2fa}/verify", &["2fa"]),
         ];
         let n_paths = self.rng.range(1, self.opts.max_paths.max(1));
         let mut paths = Map::new();
@@ -418,7 +435,7 @@ impl<'a> SpecGen<'a> {
                 item.insert("parameters".into(), Value::Array(ps));
                 self.feat("path_item_parameters");
             }
-            let verbs = ["get", "put", "post", "delete", "patch"];
+            let verbs = ["get", "put", "post", "delete", "patch", "head", "options", "trace"];
             let n_ops = self.rng.range(1, 3);
             let mut chosen: Vec<&str> = vec![];
             for _ in 0..n_ops { let v = *self.rng.pick(&verbs); if !chosen.contains(&v) { chosen.push(v); } }
@@ -476,7 +493,7 @@ impl<'a> SpecGen<'a> {
         if !shared_params.is_empty() { doc["components"]["parameters"] = Value::Object(shared_params); self.feat("referenced_parameter"); }
         if self.opts.servers {
             let n = [0usize, 1, 1, 2, 2, 3, 4][self.rng.below(7)];
-            let descs = [Some("Production server"), Some("sandbox"), Some("Beta (unstable)"), Some("Development"), None, Some("Main"), Some("the PRODUCTION one"), Some("EU region")];
+            let descs = [Some("Production server"), Some("sandbox"), Some("Beta (unstable)"), Some("Development"), None, Some("Main"), Some("the PRODUCTION one"), Some("EU region"), Some("Production: live traffic"), Some("Test environment (sandbox)"), Some("beta/unstable")];
             let urls = ["https://api.example.com", "https://api.example.com/v1/", "http://localhost:8080", "https://{region}.example.com/api", "/", "https://sandbox.example.com:8443/base"];
             let mut v = vec![];
             for _ in 0..n {
@@ -516,6 +533,13 @@ impl<'a> SpecGen<'a> {
                 }
                 // the empty requirement: the API may also be called anonymously (first, last or in between)
                 if self.rng.chance(1, 6) { let at = self.rng.below(reqs.len() + 1); reqs.insert(at, json!({})); self.feat("anonymous_requirement"); }
+                // an operation input that happens to be named like a credential, sent elsewhere (the header key as a query input)
+                if schemes.contains_key("apiKey") && self.names.len() % 2 == 0 {
+                    if let Some(op) = doc["paths"].as_object_mut().and_then(|p| p.values_mut().next()).and_then(|item| item.as_object_mut()).and_then(|item| item.iter_mut().find(|(k, _)| *k != "parameters").map(|(_, v)| v)) {
+                        let ps = op.as_object_mut().unwrap().entry("parameters").or_insert_with(|| json!([]));
+                        if let Some(a) = ps.as_array_mut() { a.push(json!({"name": "X-Api-Key", "in": "query", "required": false, "schema": {"type": "string"}})); self.feat("input_named_like_a_credential"); }
+                    }
+                }
                 doc["components"]["securitySchemes"] = Value::Object(schemes);
                 doc["security"] = Value::Array(reqs);
             }
